@@ -2287,7 +2287,8 @@ SGXMLScanner::buildAttList(const  RefVectorOf<KVStringPair>&  providedAttrs
                     if(getPSVIHandler() && fGrammarType == Grammar::SchemaGrammarType)
                     {
 	                    psviAttr = fPSVIAttrList->getPSVIAttributeToFill(suffPtr, fURIStringPool->getValueForId(uriId));
-	                    XSSimpleTypeDefinition *validatingType = (attrValidator)
+	                    // fModel is only set once a schema grammar has been resolved
+	                    XSSimpleTypeDefinition *validatingType = (attrValidator && fModel)
                             ? (XSSimpleTypeDefinition *)fModel->getXSObject(attrValidator)
                             : 0;
                         // no attribute declarations for these...
